@@ -4,6 +4,7 @@ import Nsq.Model.Split
 import Nsq.Model.Relay
 import Nsq.Model.ToFileTrace
 import Nsq.Model.ToNsqLoop   -- relay sub-builder (C20 round 6): to_nsq main loop
+import Nsq.Model.RelayOpts   -- relay sub-builder (C20 round 6): option surface of nsq_to_http / nsq_to_nsq
 /-! Driver for engine E8 (tools): one operation per input line, one canonical answer line out.
 
 `tf …`  nsq_to_file router model (stateful: conf / pre / events / tree)
@@ -11,6 +12,7 @@ import Nsq.Model.ToNsqLoop   -- relay sub-builder (C20 round 6): to_nsq main loo
 `rl …`  relay handlers (nsq_to_nsq, nsq_to_http)
 `tr …`  syscall-trace checker (FIN only after fsync)
 `lp …`  to_nsq main loop (throttle / EOF / Stop) under a given schedule      [relay block]
+`opt …` relay option surface: hdr / req / args / pass / wl / topic / hmark / nmark [relay block]
 -/
 open Nsq Nsq.Line
 
@@ -103,6 +105,7 @@ def stepLine (d : E8.D) (line : String) : String × E8.D :=
   | "trm" :: ws => (Nsq.Model.ToFileTrace.driverLineM ws, d)
   -- ---- relay block (C20 round 6, sub-builder `relay`): add new ops only below this line ----
   | "lp" :: ws => (Nsq.Model.ToNsqLoop.driverLine ws, d)
+  | "opt" :: ws => (Nsq.Model.RelayOpts.driverLine ws, d)
   -- ---- end of relay block ----
   | _ => ("bad-op", d)
 
